@@ -10,6 +10,7 @@ COQ_IMPORTS = ('From Coq Require Import QArith Uint63.\n'
                'From VRP Require Import Base.Tac Model.SlotQ Model.SlotF Model.Reward Model.Termination.\nOpen Scope Z_scope.')
 MODEL_TARGETS = ['theories/Model/SlotQ.vo', 'theories/Model/SlotF.vo', 'theories/Model/Reward.vo', 'theories/Model/Termination.vo']
 SIZES = {'quick': 2200, 'thorough': 15000, 'search': 6000}
+SHARD = 120        # model evaluations per coqc process (the long slot histories dominate a shard: smaller shards balance the 16 workers)
 SUBSTREAMS = ['c18_selector', 'c18_term']     # the adaptive selector itself (DynamicSelective as a state machine); termination structs / statistics bit for bit
 RULE = ('cases: (slot) reward histories fed to the real SlotMachine with a recording sampler - exact dyadic histories '
         '(compared as rationals with the Q model and bit for bit with the primitive-float twin) and general float histories '
